@@ -34,6 +34,7 @@ inline std::set<int> codes(const MoveList& ml) { std::set<int> s; for (int i = 0
 inline std::set<int> codes(const std::vector<orc::Mv>& v) { std::set<int> s; for (auto& m : v) s.insert(m.code()); return s; }
 
 inline std::string codeStr(int c) {
+    if (c < 0) return "none";
     orc::Mv m{c & 63, (c >> 6) & 63, c >> 12};
     return orc::uci(m);
 }
